@@ -401,12 +401,16 @@ def link_instances(ffw, gw, exp_atoms, res_pos):
     resid_of = {k: r for k, _, r, _ in gw["nodes"]}
     out = set()
     for atoms, inter in ff_links(ffw):
+        if any(order == "**" for _, order, _ in atoms):
+            continue                                   # three-residue links: see star_link_instances
         for u, v in [tuple(e) for e in gw["edges"]] + [tuple(reversed(e)) for e in gw["edges"]]:
             ru, rv = resid_of[u], resid_of[v]
             place = []
             for nm, order, rns in atoms:
                 if order == "":
                     r = ru
+                elif order == "*":
+                    r = rv                             # any other residue joined by a residue-graph edge, in BOTH orientations
                 elif order == "+":
                     r = rv if rv == ru + 1 else None
                 elif order == ">":
@@ -416,6 +420,57 @@ def link_instances(ffw, gw, exp_atoms, res_pos):
                 hit = [p for p in res_pos.get(r, []) if exp_atoms[p]["atomname"] == nm and exp_atoms[p]["resname"] in rns] if r is not None else []
                 place.append(hit[0] if len(hit) == 1 else None)
             if any(p is None for p in place):
+                continue
+            for typ, lst in inter.items():
+                for at, params, meta, _ in lst:
+                    out.add((typ, tuple(place[x] for x in at), params))
+    return out
+
+
+def star_link_instances(ffw, gw, exp_atoms, res_pos):
+    """instances that links with '*' / '**' orders prescribe (C02: a link is applied exactly where its definition matches):
+    two-residue links on both orientations of every residue-graph edge; three-residue links (orders '', '*', '**' along a path
+    of the link) on every path u - v - w of three distinct residues whose ends are not adjacent, in both directions"""
+    resid_of = {k: r for k, _, r, _ in gw["nodes"]}
+    adj = {k: set() for k in resid_of}
+    for u, v in gw["edges"]:
+        adj[u].add(v)
+        adj[v].add(u)
+    out = set()
+
+    def place_atoms(atoms, where):
+        place = []
+        for nm, order, rns in atoms:
+            r = resid_of[where[order]]
+            hit = [p for p in res_pos.get(r, []) if exp_atoms[p]["atomname"] == nm and exp_atoms[p]["resname"] in rns]
+            place.append(hit[0] if len(hit) == 1 else None)
+        return None if any(p is None for p in place) else place
+
+    for atoms, inter in ff_links(ffw):
+        orders = {order for _, order, _ in atoms}
+        if "*" not in orders or not orders <= {"", "*", "**"}:
+            continue
+        wheres = []
+        if "**" not in orders:
+            wheres = [{"": u, "*": v} for u in adj for v in adj[u]]
+        else:
+            # which link residue is the middle one follows from the link's own bonded atoms (consecutive atoms of its interactions)
+            link_edges = set()
+            for typ, lst in inter.items():
+                for at, params, meta, _ in lst:
+                    link_edges |= {frozenset((atoms[a][1], atoms[b][1])) for a, b in zip(at[:-1], at[1:]) if atoms[a][1] != atoms[b][1]}
+            mids = [m for m in ("", "*", "**") if all(frozenset((m, o)) in link_edges for o in ("", "*", "**") if o != m)]
+            if len(mids) != 1 or len(link_edges) != 2:
+                continue
+            ends = [o for o in ("", "*", "**") if o != mids[0]]
+            for v in adj:
+                for u in adj[v]:
+                    for w in adj[v]:
+                        if u != w and w not in adj[u]:
+                            wheres.append({mids[0]: v, ends[0]: u, ends[1]: w})
+        for where in wheres:
+            place = place_atoms(atoms, where)
+            if place is None:
                 continue
             for typ, lst in inter.items():
                 for at, params, meta, _ in lst:
@@ -632,6 +687,8 @@ def _plain_graph_worlds(ffw, n, edges, offsets, cap, rng):
                 yield graph_world(n, edges, resn, off, fi), placement
         return
     assigns = list(itertools.product(names, repeat=n))
+    if ffw.get("need_all_names"):
+        assigns = [a for a in assigns if len(set(a)) == len(names)]
     if cap and len(assigns) > cap:
         assigns = rng.sample(assigns, cap)
     for resn in assigns:
@@ -803,29 +860,37 @@ def c14_force_fields(thorough):
     excls = (0, 1, 2, 3, 4) if thorough else (1, 2, 3)
     k = 3 if thorough else 2
     size_sets = [(3, 2), (1, 3), (2, 2), (3, 3)] if not thorough else [(3, 2, 1), (2, 3, 3)]
-    idx = 0
-    for sizes in size_sets:
-        for combo in itertools.product(excls, repeat=k):
-            for explicit in (0, 1):
-                for syntax in ("ff", "itp"):
-                    variant = 3 if explicit else 2
-                    blocks = [single_block(NAMES[i], s, combo[i], variant, i + 1) for i, s in enumerate(sizes)]
-                    links = []
-                    for i, j in itertools.product(range(k), repeat=2):
-                        inter = {"bonds": [[[0, 1], ["1", "0.47", "1250"], {}]]}
-                        atoms = [[ATOMN[sizes[i] - 1], "", NAMES[i]], ["a1", ">", NAMES[j]]]
-                        if explicit and sizes[j] >= 2:
-                            # the link also excludes explicitly: last atom of the first residue - second atom of the next one
-                            atoms.append(["a2", ">", NAMES[j]])
-                            inter["exclusions"] = [[[0, 2], [], {}]]
-                        links.append(["link", ff_link(atoms, inter, sorted({NAMES[i], NAMES[j]}))])
-                    if syntax == "ff":
-                        files = [["ff", [["block", b] for b in blocks] + links]]
-                    else:
-                        files = [["itp", [["block", b] for b in blocks]], ["ff", links]]
-                    out.append({"id": f"e{idx}", "kind": "excl", "names": NAMES[:k], "files": files, "sizes": list(sizes),
-                                "nrexcl": list(combo), "explicit": explicit})
-                    idx += 1
+    families = [(sizes, combo, explicit, syntax, False) for sizes in size_sets for combo in itertools.product(excls, repeat=k)
+                for explicit in (0, 1) for syntax in ("ff", "itp")]
+    if not thorough:
+        # nrexcl 0 against 0..3 in both orders
+        zero = [(0, 0)] + [(0, x) for x in (1, 2, 3)] + [(x, 0) for x in (1, 2, 3)]
+        families += [(sizes, combo, explicit, syntax, False) for sizes in [(3, 2), (1, 3)] for combo in zero
+                     for explicit in (0, 1) for syntax in ("ff", "itp")]
+        # three DISTINCT exclusion distances in one molecule: three block types, every residue order (all assignments that use all
+        # three types on every chain, star, ring ... of 3-4 residues)
+        families += [((2, 2, 2), combo, explicit, syntax, True) for combo in [(1, 2, 3), (0, 1, 2)]
+                     for explicit, syntax in [(0, "ff"), (1, "ff"), (0, "itp")]]
+        families += [((3, 1, 2), combo, 0, "ff", True) for base in [(1, 2, 3), (0, 1, 2)] for combo in itertools.permutations(base)]
+    for idx, (sizes, combo, explicit, syntax, need_all) in enumerate(families):
+        k = len(sizes)
+        variant = 3 if explicit else 2
+        blocks = [single_block(NAMES[i], s, combo[i], variant, i + 1) for i, s in enumerate(sizes)]
+        links = []
+        for i, j in itertools.product(range(k), repeat=2):
+            inter = {"bonds": [[[0, 1], ["1", "0.47", "1250"], {}]]}
+            atoms = [[ATOMN[sizes[i] - 1], "", NAMES[i]], ["a1", ">", NAMES[j]]]
+            if explicit and sizes[j] >= 2:
+                # the link also excludes explicitly: last atom of the first residue - second atom of the next one
+                atoms.append(["a2", ">", NAMES[j]])
+                inter["exclusions"] = [[[0, 2], [], {}]]
+            links.append(["link", ff_link(atoms, inter, sorted({NAMES[i], NAMES[j]}))])
+        if syntax == "ff":
+            files = [["ff", [["block", b] for b in blocks] + links]]
+        else:
+            files = [["itp", [["block", b] for b in blocks]], ["ff", links]]
+        out.append({"id": f"e{idx}", "kind": "excl", "names": NAMES[:k], "files": files, "sizes": list(sizes),
+                    "nrexcl": list(combo), "explicit": explicit, "need_all_names": need_all})
     return out
 
 
@@ -899,7 +964,7 @@ def c14_worker(args):
     os.environ["TQDM_DISABLE"] = "1"
     ffw, paths, graphs, offsets, cap, seed = args
     rng = random.Random(seed)
-    n_eval = n_nt = 0
+    n_eval = n_nt = n_three = 0
     found, counts, sample = {}, Counter(), None
     blocks = ff_blocks(ffw)
     for n, edges in graphs:
@@ -907,6 +972,7 @@ def c14_worker(args):
             n_eval += 1
             used = {blocks[rn][0]["nrexcl"] for _, rn, _, _ in gw["nodes"]}
             nontrivial = len(used) >= 2
+            n_three += int(len(used) >= 3)
             n_nt += int(nontrivial)
             s2, s3 = run_pipeline(paths, gw, None)
             bad = None
@@ -924,7 +990,7 @@ def c14_worker(args):
                 sample = {"force_field": ffw["id"], "sizes": ffw["sizes"], "nrexcl": ffw["nrexcl"], "explicit": ffw["explicit"],
                           "syntax": [f[0] for f in ffw["files"]], "graph": gw, "molecule_nrexcl": s2.snap["nrexcl"],
                           "listed_exclusions": sum(1 for t in s2.snap["inter"] if t[0] == "exclusions")}
-    return n_eval, n_nt, found, counts, sample
+    return n_eval, n_nt, n_three, found, counts, sample
 
 
 def run_c14(ctx, res):
@@ -946,9 +1012,11 @@ def run_c14(ctx, res):
             outs = pool.map(c14_worker, jobs, chunksize=2)
     finally:
         shutil.rmtree(scratch, ignore_errors=True)
-    for n_eval, n_nt, found, counts, sample in outs:
+    three = 0
+    for n_eval, n_nt, n_three, found, counts, sample in outs:
         res.evaluations += n_eval
         res.nontrivial += n_nt
+        three += n_three
         if sample and len(res.samples) < 3:
             res.samples.append(sample)
     counts = _merge_findings("c14-exclusions", res, outs)
@@ -956,10 +1024,14 @@ def run_c14(ctx, res):
     k = 3 if ctx.thorough else 2
     res.bound = (f"{len(ffs)} force fields: {k} block types with atom counts {'(3,2,1),(2,3,3)' if ctx.thorough else '(3,2),(1,3),(2,2),(3,3)'} (bond paths), "
                  f"every combination of prescribed nrexcl in {'0..4' if ctx.thorough else '{1,2,3}'} x {{no explicit exclusions, block end-to-end exclusion + link exclusion}} "
-                 f"x {{.ff, polyply .itp + link file}}; link bonds last atom -> first atom of the residue with the larger id for every pair of types.  Residue graphs: all {len(graphs)} "
-                 f"connected graphs on <= {max_nodes} nodes (chains, branches and cycles), every resname assignment over the {k} names"
+                 f"x {{.ff, polyply .itp + link file}}"
+                 + ("" if ctx.thorough else "; nrexcl 0 against 0..3 in both orders (atom counts (3,2),(1,3), with/without explicit exclusions, both syntaxes); "
+                    "three block types with three DISTINCT nrexcl: (1,2,3) and (0,1,2) on atom counts (2,2,2) (.ff with/without explicit exclusions, .itp) and "
+                    "all 12 permutations on atom counts (3,1,2), residue graphs restricted to assignments that use all three types (every residue order)")
+                 + f"; link bonds last atom -> first atom of the residue with the larger id for every pair of types.  Residue graphs: all {len(graphs)} "
+                 f"connected graphs on <= {max_nodes} nodes (chains, stars, rings, ...), every resname assignment over the block names"
                  f"{' (capped at 24 seeded assignments per graph and force field: NOT exhaustive for >= 3 nodes x 3 names)' if cap else ''}, resid offset 1 (residue ids enter only through the '>' order of the links).  "
-                 "Every atom pair of every molecule is recounted against the bond graph (bonds + constraints of the block copies + link bonds).")
+                 f"Every atom pair of every molecule is recounted against the bond graph (bonds + constraints of the block copies + link bonds); {three} molecules carry >= 3 distinct nrexcl.")
     res.rule = "world = (force field files, residue graph, resnames, offset); non-trivial iff the residues of the molecule use blocks with >= 2 different nrexcl"
     res.assumptions.append("bond graph = bonds and constraints (GROMACS generates nrexcl exclusions from these); the written molecule is required to have exactly the bonds of the block copies and links")
     res.assumptions.append("worlds per finding class: " + json.dumps(dict(counts)))
@@ -1031,6 +1103,15 @@ def c13_force_fields(thorough):
     lk2 = ["link", ff_link([["m3", "", None], ["m1", ">", None]], {"bonds": [[[0, 1], ["1", "0.49", "1310"], {}]]}, ["R1", "R2"])]
     out.append({"id": "w5", "kind": "multi", "names": NAMES[:1], "multi": "MIX", "nres": 2,
                 "files": [["itp", [["block", sb], ["block", mb]]], ["ff", [lk, lk2]]]})
+    # W7 links without order relation ('*', '**'): between two residues of the same name BOTH orientations match, and the
+    # interactions are not symmetric under swapping the residues (angle a2 a1 *a1, bond a2 *a1, three-residue angle a2 *a1 **a1)
+    b = [single_block(NAMES[0], 2, 1, 2, 1), single_block(NAMES[1], 3, 1, 2, 2)]
+    star2 = ["link", ff_link([["a2", "", None], ["a1", "", None], ["a1", "*", None]],
+                             {"angles": [[[0, 1, 2], ["2", "111", "25"], {}]], "bonds": [[[0, 2], ["1", "0.52", "800"], {}]]}, NAMES[:2])]
+    star3 = ["link", ff_link([["a2", "", None], ["a1", "*", None], ["a1", "**", None]],
+                             {"angles": [[[0, 1, 2], ["2", "133", "35"], {}]]}, NAMES[:2])]
+    out.append({"id": "w7", "kind": "single", "names": NAMES[:2], "star": True,
+                "files": [["ff", [["block", b[0]], ["block", b[1]], star2, star3]]]})
     if thorough:
         b = [single_block(NAMES[0], 1, 0, 0, 1), single_block(NAMES[1], 3, 4, 3, 2), single_block(NAMES[2], 2, 2, 1, 3)]
         out.append({"id": "w6", "kind": "single", "names": NAMES[:3],
@@ -1108,6 +1189,18 @@ def c13_worker(args):
         for gw, placement in c01_graph_worlds(ffw, n, edges, offsets, cap, rng):
             base2, base3 = run_pipeline(paths_for(ffw), gw, None)
             cb2, cb3 = canon(base2), canon(base3)
+            if ffw.get("star") and base2.snap is not None:
+                # explicit expectation for order-free links: every orientation the definition matches is present
+                n_eval += 1
+                n_nt += int(n >= 2)
+                ea, _, _, rp = expected_layout(ffw, gw)
+                have = {(t, a, p_) for t, a, p_, m in base2.snap["inter"]}
+                missing = sorted(star_link_instances(ffw, gw, ea, rp) - have)
+                if missing:
+                    counts["c13-star-link-orientation-missing"] += 1
+                    found.setdefault("c13-star-link-orientation-missing",
+                                     (f"link with '*' order matches but its interaction is absent: {missing[:4]} (of {len(missing)})",
+                                      {"force_field": ffw["id"], "files": [open(p).read() for p in paths_for(ffw)], "graph": gw}))
             for tname, tff, tgw, history in transforms(ffw, gw, rng, limit):
                 n_eval += 1
                 n_nt += 1                        # every transformation generated above is a non-identity one
@@ -1152,6 +1245,124 @@ def c13_worker(args):
     return n_eval, n_nt, found, counts, sample
 
 
+# ---- history through the public entry point: gen_params(lib=..., seq=...) with DEFAULT inpath / mods, several calls per process
+
+API_FAMILIES = {"PEO": ["martini3", "martini2", "oplsaaLigParGen"], "PS": ["martini3", "martini2"],
+                "P3HT": ["martini3", "martini2", "gromos53A6"]}
+API_FAMILIES_THOROUGH = {"PEO": ["martini3", "martini2", "oplsaaLigParGen", "2016H66"], "PS": ["martini3", "martini2"],
+                         "P3HT": ["martini3", "martini2", "gromos53A6"], "PE": ["martini3", "martini2"]}
+
+
+def api_call(lib, resname, out):
+    """one call of the public entry point; inpath and mods are NOT passed (the programs' defaults are used)"""
+    from pathlib import Path
+    gi = quiet_load("polyply.src.gen_itp")
+    gi.gen_params(name="pol", outpath=Path(out), lib=[lib], seq=[f"{resname}:4"])
+
+
+def itp_body(path, raw=False):
+    """the written file apart from the command-line line (its first line).  raw: the remaining lines as they are; otherwise the
+    citation comment block is taken as a multiset (sorted) and everything from the first section on as it is"""
+    with open(path) as fh:
+        lines = fh.read().splitlines()[1:]
+    if raw:
+        return lines
+    k = next((i for i, l in enumerate(lines) if l.lstrip().startswith("[")), len(lines))
+    return sorted(lines[:k]) + lines[k:]
+
+
+def api_reference_main(argv):
+    """entry point of the fresh reference process:  python -c '...' lib resname out"""
+    os.environ["TQDM_DISABLE"] = "1"
+    api_call(argv[0], argv[1], argv[2])
+
+
+def api_reference(args):
+    """the call in two fresh python processes (two different string-hash seeds); returns (result, raw lines of both runs)"""
+    import subprocess
+    import sys
+    lib, resname, out = args
+    code = "import sys; from bounded.b_genparams import api_reference_main; api_reference_main(sys.argv[1:])"
+    raws = []
+    for hashseed in ("1", "2"):
+        r = subprocess.run([sys.executable, "-c", code, lib, resname, out], cwd=os.path.dirname(os.path.dirname(os.path.abspath(__file__))),
+                           capture_output=True, text=True, env=dict(os.environ, PYTHONHASHSEED=hashseed))
+        if r.returncode != 0:
+            return ("error", r.stderr.strip().splitlines()[-1] if r.stderr.strip() else "exit %d" % r.returncode), None
+        raws.append(itp_body(out, raw=True))
+    return ("ok", itp_body(out)), raws
+
+
+def api_sequence_worker(args):
+    """runs in a process forked for this sequence only (no earlier gen_params call in it)"""
+    os.environ["TQDM_DISABLE"] = "1"
+    seq, scratch, idx = args
+    out = None
+    try:
+        for j, (lib, resname) in enumerate(seq):
+            out = os.path.join(scratch, f"seq{idx}_{j}.itp")
+            api_call(lib, resname, out)
+        return ("ok", itp_body(out))
+    except Exception as e:                       # noqa: BLE001
+        return ("error", f"{type(e).__name__}: {e}")
+
+
+def api_sequences(thorough):
+    fam = API_FAMILIES_THOROUGH if thorough else API_FAMILIES
+    seqs = []
+    for resname, libs in fam.items():
+        calls = [(lib, resname) for lib in libs]
+        for length in (1, 2, 3):
+            seqs += [list(x) for x in itertools.product(calls, repeat=length)]
+    if thorough:
+        # histories that mix residues: every ordered pair of (library, residue) calls
+        allcalls = [(lib, resname) for resname, libs in fam.items() for lib in libs]
+        seqs += [[a, b] for a in allcalls for b in allcalls if a[1] != b[1]]
+    return seqs
+
+
+def run_api_histories(ctx, res, scratch):
+    import multiprocessing as mp
+    from multiprocessing.pool import ThreadPool
+    seqs = api_sequences(ctx.thorough)
+    calls = sorted({c for s in seqs for c in s})
+    with ThreadPool(min(NPROC, len(calls))) as tp:
+        both = dict(zip(calls, tp.map(api_reference, [(lib, rn, os.path.join(scratch, f"ref_{lib}_{rn}.itp")) for lib, rn in calls])))
+    refs = {c: v[0] for c, v in both.items()}
+    found, counts = {}, Counter()
+    # repeated runs (two fresh processes): identical files apart from the command-line line
+    for c, (_, raws) in both.items():
+        res.evaluations += 1
+        if raws and raws[0] != raws[1]:
+            same_apart_from_citations = sorted(raws[0]) == sorted(raws[1]) and [l for l in raws[0] if not l.startswith(";")] == [l for l in raws[1] if not l.startswith(";")]
+            key = "F19-citation-order-depends-on-hash-seed" if same_apart_from_citations else "c13-api-repeated-runs-differ"
+            diff = next((f"line {i + 2}: {a!r} vs {b!r}" for i, (a, b) in enumerate(zip(*raws)) if a != b), "different length")
+            counts[key] += 1
+            found.setdefault(key, (f"two fresh runs of gen_params(lib={c[0]}, seq={c[1]}:4) (PYTHONHASHSEED 1 / 2) write different files: {diff[:300]}",
+                                   {"calls": [list(c)], "note": "python started twice with PYTHONHASHSEED=1 and 2"}))
+    quiet_load("polyply.src.gen_itp")            # import only (no call): the forked children start from a process without gen_params history
+    with mp.get_context("fork").Pool(NPROC, maxtasksperchild=1) as pool:
+        outs = pool.map(api_sequence_worker, [(s, scratch, i) for i, s in enumerate(seqs)], chunksize=1)
+    for seq, got in zip(seqs, outs):
+        res.evaluations += 1
+        res.nontrivial += int(len(seq) >= 2)
+        want = refs[seq[-1]]
+        if got == want:
+            continue
+        if want[0] == "error":
+            key, text = "c13-api-reference-failed", f"gen_params(lib={seq[-1][0]}, seq={seq[-1][1]}:4) fails in a fresh process: {want[1]}"
+        elif got[0] == "error":
+            key, text = "c13-api-history", f"after {seq[:-1]} the call {seq[-1]} raises {got[1]}; in a fresh process it succeeds"
+        else:
+            diff = next((f"line {i + 2} (citation block sorted): {a[:120]!r} vs fresh {b[:120]!r}" for i, (a, b) in enumerate(zip(got[1], want[1])) if a != b),
+                        f"{len(got[1])} lines vs fresh {len(want[1])} lines")
+            key = "c13-api-history" if len(seq) >= 2 else "c13-api-process-not-clean"
+            text = f"gen_params calls {seq} (default inpath): the .itp of the last call differs from the same call in a fresh process: {diff}"
+        counts[key] += 1
+        found.setdefault(key, (text, {"calls": [list(c) for c in seq], "note": "gen_params(name='pol', outpath=..., lib=[lib], seq=['RES:4']), inpath/mods not passed"}))
+    return len(seqs), len(calls), (found, counts, None)
+
+
 def run_c13(ctx, res):
     import multiprocessing as mp
     max_nodes = 5 if ctx.thorough else 4
@@ -1169,8 +1380,10 @@ def run_c13(ctx, res):
                 jobs.append((ffw, scratch, gl[j:j + 1], offsets, limit, cap, ctx.seed * 104729 + i * 977 + j))
         with mp.Pool(NPROC) as pool:
             outs = pool.map(c13_worker, jobs, chunksize=1)
+        n_seq, n_calls, api_out = run_api_histories(ctx, res, scratch)
     finally:
         shutil.rmtree(scratch, ignore_errors=True)
+    outs = list(outs) + [(0, 0) + api_out]
     for n_eval, n_nt, found, counts, sample in outs:
         res.evaluations += n_eval
         res.nontrivial += n_nt
@@ -1183,7 +1396,13 @@ def run_c13(ctx, res):
                  f"{'(+ the 5-residue path for the multi-residue world) ' if not ctx.thorough else ''}x every resname assignment{' (capped at 64 seeded assignments per graph for 3 names: NOT exhaustive there)' if cap else ''} / from_itp placement x resid offsets {{1,7}}.  Per world: every non-identity permutation of the node insertion order and of the "
                  f"node keys 0..n-1 (resids kept) for n <= 3, reversal + {limit - 1} seeded permutations for larger n (seeded beyond n = 3), all edges flipped, edge list reversed, definitions reversed "
                  "inside every file, file order reversed, every file split in two, 1 and 2 unrelated runs (same block names, other content) before the run in the same process.  "
-                 "Compared: atoms in file order, multiset of (atoms, parameters, meta) per interaction type, nrexcl - after ApplyLinks and after ApplyModifications.")
+                 "Compared: atoms in file order, multiset of (atoms, parameters, meta) per interaction type, nrexcl - after ApplyLinks and after ApplyModifications.  "
+                 "World w7 (links with '*' / '**' orders) is also compared with the explicit expectation (every orientation the definition matches is present).  "
+                 f"PUBLIC ENTRY POINT: {n_seq} sequences of 1-3 gen_params(lib=[L], seq=['R:4']) calls with the default inpath/mods in one forked process each "
+                 f"(shipped libraries {json.dumps(API_FAMILIES_THOROUGH if ctx.thorough else API_FAMILIES)}, every ordered sequence per residue"
+                 f"{', every ordered pair of calls with different residues' if ctx.thorough else ''}); the .itp of the last call (without its command-line line) "
+                 f"must equal the .itp of the same call in a fresh python process ({n_calls} references; citation comment block compared as a multiset); "
+                 "each reference is made twice (PYTHONHASHSEED 1 and 2) and the two files must be identical.")
     res.rule = "evaluation = (world, transformation); every generated transformation is non-identity (graphs with one node only get file/history transformations)"
     res.assumptions.append("a run that raises is compared by exception type (both runs raising the same type count as equal; crashes themselves are C01's business)")
     res.assumptions.append("worlds per finding class: " + json.dumps(dict(counts)))
